@@ -1119,13 +1119,13 @@ def classify_accept(task, eff_text, base_eff):
     if c == 'total-size-lt-content-size':
         return 'S3-total-size-narrower-than-content-size', paths
     if c == 'integral-float':
-        return 'S18-integral-float-accepted-as-integer', paths
+        return 'S19-integral-float-accepted-as-integer', paths
     if through_dyn or (task['cls'] == 'darray' and task['dialect'] == 3) or 'dyn-elem' in task['loc']:
         return 'S4-dynamic-array-unvalidated', paths
     if c == 'missing-required' and task['variant'] == 'length':
         return 'S14-static-array-length-not-required', paths
     if c == 'integral-float':
-        return 'S18-integral-float-accepted-as-integer', paths
+        return 'S19-integral-float-accepted-as-integer', paths
     if c == 'invalid-identifier-doc-keyword':
         return 'NEW-tsdl-keyword-list-incomplete', paths
     if task['dialect'] == 3 and task['kind'] in ('members', 'member-entry') and c in ('invalid-identifier',):
